@@ -188,34 +188,45 @@ def gen_case(rng, kind=None):
     if kind is None:
         kind = rng.choice(["ctor", "ctor", "mixed", "mixed", "api", "api", "nodepot", "moved"])
     strict = rng.random() < 0.5
-    ncust = rng.randint(1, 4)
+    # rich: wide windows, all node pairs offered as arcs, enough vehicle-positions: instances that have walks
+    rich = rng.random() < 0.45
+    ncust = rng.randint(1, 3 if rich else 4)
     names = NAMES[:ncust + 1]
     nodes = []
     for i, nm in enumerate(names):
         if i == 0:
-            if rng.random() < 0.6:
+            if rich or rng.random() < 0.6:
                 lo, hi = 0, INF
             else:
                 lo = rng.randint(0, 3)
                 hi = lo + rng.randint(2, 8)
+        elif rich:
+            lo = rng.randint(0, 4)
+            hi = rng.randint(lo + 1, 8)
         else:
             lo = rng.randint(0, 8)
             hi = rng.randint(lo, 8)
         nodes.append(("node", nm, rng.randint(-2, 3), lo, hi))
-    density = rng.choice([0.2, 0.4, 0.6, 0.8, 1.0])
+    density = 1.0 if rich else rng.choice([0.2, 0.4, 0.6, 0.8, 1.0])
     arcs = []
     for a in names:
         for b in names:
             if a == b and rng.random() < 0.9:
                 continue
             if rng.random() < density:
-                arcs.append(("arc", a, b, rng.randint(0, 4), rng.randint(-3, 6) if rng.random() < 0.8 else 0))
+                arcs.append(("arc", a, b, rng.randint(0, 3 if rich else 4), rng.randint(-3, 6) if rng.random() < 0.8 else 0))
     rng.shuffle(arcs)
     if rng.random() < 0.15 and arcs:
         a = rng.choice(arcs)                     # the same arc given twice with other data: overwritten in place
         arcs.append(("arc", a[1], a[2], rng.randint(0, 4), rng.randint(-3, 6)))
-    V = rng.choice([0, 1, 1, 2, 2, 2, 3])
-    L = rng.choice([2, 3, 3, 3, 4, 4, 5])
+    if rich:
+        V = rng.choice([1, 2, 2, 3])
+        L = rng.choice([3, 4, 4, 5])
+        while V * (L - 2) < ncust and L < 5:
+            L += 1
+    else:
+        V = rng.choice([0, 1, 1, 2, 2, 2, 3])
+        L = rng.choice([2, 3, 3, 3, 4, 4, 5])
     vc = [0] * V
     if V and rng.random() < 0.5:
         vc = [rng.choice([0, 0, 3, 7, -2]) for _ in range(V)]
@@ -243,7 +254,7 @@ def gen_case(rng, kind=None):
             ops0 = nodes + arcs[:k] + [("depot", other)] + arcs[k:]
         else:
             ops1 = nodes + arcs[:k] + [("depot", other)] + arcs[k:]
-    return {"kind": kind, "strict": strict, "ops0": ops0, "ops1": ops1, "V": V, "L": L, "vc": vc}
+    return {"kind": kind, "rich": rich, "strict": strict, "ops0": ops0, "ops1": ops1, "V": V, "L": L, "vc": vc}
 
 
 def depot_first(case):
